@@ -229,6 +229,10 @@ func runBatch(ctx *hx.Ctx, bc *BatchCase) (class, summary string, found bool) {
 
 func doBatch(ctx *hx.Ctx, bc *BatchCase) {
 	class, summary, found := runBatch(ctx, bc)
+	if strings.HasSuffix(class, "-hang") {
+		ctx.Cov.Count("timeout_retried")
+		class, summary, found = runBatch(ctx, bc)
+	}
 	nontrivial := false
 	for _, b := range bc.Batches {
 		if b.Fail || b.Repeat > 0 {
@@ -542,7 +546,19 @@ func childMain(casesPath, outPath string) {
 	os.Exit(0)
 }
 
+// runChild runs the message cases in a child process; a reported hang must reproduce in a second run (a stall
+// under machine load is not a hang of the node)
 func runChild(ctx *hx.Ctx, cases []MsgCase) (*childResult, string, bool) {
+	res, stderr, crashed := runChildOnce(ctx, cases)
+	for _, v := range res.Violations {
+		if strings.HasPrefix(v, "msg-hang") {
+			return runChildOnce(ctx, cases)
+		}
+	}
+	return res, stderr, crashed
+}
+
+func runChildOnce(ctx *hx.Ctx, cases []MsgCase) (*childResult, string, bool) {
 	dir, _ := os.MkdirTemp("", "c19-msgs-")
 	defer os.RemoveAll(dir)
 	in, out := dir+"/cases.json", dir+"/out.json"
